@@ -36,6 +36,7 @@ FATAL_PATTERNS = [
     (re.compile(r"must be an error"), "FNotError"),
     (re.compile(r"with named return list is not supported"), "FNamed"),
     (re.compile(r"unsupported return type: (\S+)"), "FUnsupported"),
+    (re.compile(r"unsupported array return type: (.+?) \(use a slice or a pointer\)"), "FArray"),
 ]
 
 
@@ -60,7 +61,7 @@ def gen_packages(run):
     if not run.thorough():
         # the full list takes ~0.3 s per signature: quick keeps one of each fatal kind plus a sample
         keep = {"ident_struct", "selector", "struct_lit", "named3", "none", "only_error", "four",
-                "resp_by_value", "resp_alias_import", "last_custom_error"}
+                "resp_by_value", "resp_alias_import", "last_custom_error", "array_result", "multi_name_3"}
         rest = [r for r in rej if r[0] not in keep]
         rng.shuffle(rest)
         rej = [r for r in rej if r[0] in keep] + rest[:4]
@@ -85,7 +86,7 @@ def fatal_of(r):
     for pat, name in FATAL_PATTERNS:
         m = pat.search(txt)
         if m:
-            return "FUnsupported %s" % g.coq_str(m.group(1)) if name == "FUnsupported" else name
+            return "%s %s" % (name, g.coq_str(m.group(1))) if name in ("FUnsupported", "FArray") else name
     return "other: rc=%s %s" % (r["rc"], txt[-400:])
 
 
